@@ -177,6 +177,53 @@ func mutate(r *Rng, v any) any {
 	return v
 }
 
+// parseTexts: inputs for the PARSING builtins (fromjson, tonumber, toboolean, @base64d, @urid): valid texts,
+// every valid text followed by each trailer, prefixes of valid texts, leading garbage, duplicate keys,
+// numbers of odd shapes, invalid UTF-8 and control characters inside strings, deep nesting.
+func parseTexts() []any {
+	valid := []string{"1", "-0", "1.5e3", "12345678901234567890", "null", "true", "false", `""`, `"a"`, `"\u00e9\ud83d\ude00\n"`,
+		"[]", "[1]", "[1,2]", "[[],{}]", "{}", `{"a":1}`, `{"a":{"b":[1,null]},"c":"d"}`, " [ 1 , 2 ] ", "\t{\n\"a\" : 1\r}\n"}
+	trailers := []string{"]", "}", "]]", ",", ":", " 2", "x", `"`, "\x00", " ", "\n\t ", " ]", " }", "[", "{", "null", " null", "/", "\xff", "1", ".", "e1", "-"}
+	var out []any
+	seen := map[string]bool{}
+	add := func(xs ...string) {
+		for _, x := range xs {
+			if !seen[x] {
+				seen[x] = true
+				out = append(out, x)
+			}
+		}
+	}
+	for _, v := range valid {
+		add(v)
+		for _, t := range trailers {
+			add(v + t)
+		}
+		for i := 0; i < len(v); i++ { // prefixes
+			add(v[:i])
+		}
+		for _, g := range []string{"x", "]", ",", "\xef\xbb\xbf", "\x00", "'", "+"} { // leading garbage
+			add(g + v)
+		}
+	}
+	// duplicate keys, odd numbers, strings with invalid UTF-8 / control characters / odd escapes
+	add(`{"a":1,"a":2}`, `{"a":1,"b":2,"a":{"a":3}}`, `{"a":1,}`, `[1,]`, `[,1]`, `{,}`, `{"a"}`, `{"a":}`, `{a:1}`, `{'a':1}`, `{"a":1 "b":2}`, `[1 2]`, `{1:2}`,
+		"01", "1.", ".5", "+1", "1e", "1e+", "-", "--1", "-01", "0.0", "1E5", "1e-0", "0e0", "1.0e", "0x10", "1_0", "Infinity", "NaN", "nan", "-Infinity", "1e1000", "-1e-1000", "00", "-.5", "1.e5", "١",
+		"\"\xff\"", "\"a\xffb\xc3\"", "\"\xe2\x82\"", "\"\x01\"", "\"\t\"", "\"\n\"", "\"\x7f\"", "\"\x00\"", `"\x"`, `"\u12"`, `"\u12G4"`, `"\ud800"`, `"\ud800\u0041"`, `"\udc00"`, `"\ud800\udc00"`, `"\/"`, `"\'"`, `"\`,
+		`"\"`, `"a`, `'a'`, "tru", "True", "TRUE", "nul", "nullx", "truefalse", "[null,true,false]", "[\"a\",\"b\"]]", "{\"\xff\":1,\"\xfe\":2}", "{\"\":1}", "\xef\xbb\xbf1", "\u00a01", "1\u00a0", "\v1", "1\f",
+		"[1][2]", "{}{}", "[]]", "{}}", "null]]]]", "1]", "1}", "\"a\"]", "true]", "[1]}", "{\"a\":1}]", "[[1]", "[1]]]", "[1] ]", "{} }", "//", "/**/1", "1 // x", "1,2")
+	// nesting: 100, exactly at the decoder's limit and beyond it
+	for _, n := range []int{100, 10000, 10001} {
+		add(strings.Repeat("[", n)+strings.Repeat("]", n), strings.Repeat("[", n)+strings.Repeat("]", n)+"]", strings.Repeat("[", n)+strings.Repeat("]", n-1),
+			strings.Repeat(`{"a":`, n)+"1"+strings.Repeat("}", n))
+	}
+	// tonumber / toboolean / base64 / url texts
+	add(" 1", "1 ", " ", "", "1e", "1e400", "1e-400", "9223372036854775808", "-9223372036854775809", "0001", "-0", "+0", "+.5e+3", "5.e3", "e5", ".e5", "1..2", "1e5e5", "1-", "1+1", "١٢", "1\x00", "\x001",
+		"true ", " true", "True", "false\n", "t", "YWJj", "YW Jj", "YWJj=", "=YWJj", "YQ", "Y", "YWJ", "YW\nJj", "YW\r\nJj", "YW-_", "YWJjZA", "YQ=a", "!!!!", "YQ==", "YQ=", "YWI=", "Y===", "====", "YWJjZGVm", "YWJjZGV=", "\xff\xff", "YW\x00Jj", "YWJj\n",
+		"%41", "%4", "%", "%zz", "%%", "a%20b+c", "%C3%A9", "%ff", "%00", "+", "%2B", "%2", "a%")
+	return out
+}
+
 // ---------------------------------------------------------------------------------------------
 // outcomes
 
@@ -440,6 +487,24 @@ func canonOutcome(res any, panicked any) string {
 	return sb.String()
 }
 
+// canonJSON: the canonical form of what a value is after one trip through JSON text (NaN becomes null,
+// infinities the largest finite doubles, invalid UTF-8 bytes U+FFFD)
+func canonJSON(v any) string {
+	b, err := gojq.Marshal(v)
+	if err != nil {
+		return "?marshal"
+	}
+	var w any
+	d := json.NewDecoder(strings.NewReader(string(b)))
+	d.UseNumber()
+	if err := d.Decode(&w); err != nil {
+		return "?decode:" + err.Error()
+	}
+	var sb strings.Builder
+	canon(&sb, w)
+	return sb.String()
+}
+
 func hasNumber(v any) bool {
 	switch x := v.(type) {
 	case int, *big.Int, float64:
@@ -563,6 +628,8 @@ type runner struct {
 	pathDif int
 	mutated int
 	calls   int
+	quiet   bool // run the oracles but do not emit the line
+	refDiff int
 	repRuns int
 }
 
@@ -652,7 +719,9 @@ func (r *runner) call(n *native, in any, args []any) {
 	out := outcome(res, p)
 	r.calls++
 	caseText := fmt.Sprintf("(call %s %s (%s)", n.name, inS, strings.Join(argS, " "))
-	c.Emit("%s %s)", caseText, out)
+	if !r.quiet {
+		c.Emit("%s %s)", caseText, out)
+	}
 	c.Count(fmt.Sprintf("%s/%d", n.name, n.arity))
 	if p != nil {
 		r.panics++
@@ -678,6 +747,43 @@ func (r *runner) call(n *native, in any, args []any) {
 	}
 	if impure[n.name] {
 		return
+	}
+	// fromjson(s) is a value iff encoding/json accepts s as exactly one JSON text, and then it is that value
+	if n.name == "fromjson" {
+		if str, ok := in.(string); ok {
+			valid := json.Valid([]byte(str))
+			_, isErr := res.(error)
+			if valid == isErr {
+				r.refDiff++
+				if r.refDiff <= 10 {
+					c.Violation("fromjson-differs-from-encoding/json: %s) :: json.Valid=%v but fromjson gives %s", caseText, valid, out)
+				}
+			} else if valid {
+				var w any
+				d := json.NewDecoder(strings.NewReader(str))
+				d.UseNumber()
+				if err := d.Decode(&w); err != nil || canonOutcome(w, nil) != canonOutcome(res, nil) {
+					r.refDiff++
+					if r.refDiff <= 10 {
+						c.Violation("fromjson-differs-from-encoding/json: %s) :: Unmarshal gives %s but fromjson gives %s", caseText, SexpVal(w), out)
+					}
+				}
+			} else if _, halt := res.(*gojq.HaltError); halt {
+				c.Violation("fromjson-differs-from-encoding/json: %s) :: uncatchable error %s", caseText, out)
+			}
+		}
+	}
+	// tojson | fromjson is the identity on what the value denotes
+	if n.name == "tojson" {
+		if str, ok := res.(string); ok {
+			back, p2 := gojq.VerifCallNative("fromjson", str, nil)
+			if p2 != nil || canonJSON(back) != canonJSON(in) {
+				r.refDiff++
+				if r.refDiff <= 10 {
+					c.Violation("tojson-fromjson-roundtrip: %s) :: tojson gives %s, fromjson of it gives %s", caseText, out, outcome(back, p2))
+				}
+			}
+		}
 	}
 	// compiled path
 	if n.code != nil {
@@ -815,6 +921,9 @@ func runC03(c *Ctx) {
 			_ = x
 		}
 	}
+	ptexts := parseTexts()
+	parsing := map[string]bool{"fromjson": true, "tonumber": true, "toboolean": true, "_tobase64d": true, "_tourid": true, "tojson": true, "_tobase64": true, "_touri": true}
+	c.Stats["parse_texts"] = len(ptexts)
 	small = append(small, nil, 0, 1, -1, 2, 1.5, lit("1.5"), lit("1"), "a", arr(1), obj("a", 1), math.NaN(), bigs("9223372036854775808"), -1.5, 3, math.Inf(1), true)
 	for _, name := range names {
 		if len(only) > 0 && !only[name] {
@@ -861,6 +970,21 @@ func runC03(c *Ctx) {
 			case 0:
 				for _, in := range all {
 					r.call(n, in, nil)
+				}
+				if parsing[name] {
+					for _, in := range ptexts {
+						// 20 kB texts (nesting at the decoder's limit): only fromjson needs them, and the transport
+						// reader of the model is quadratic in the length of an atom, so the model sees them in the
+						// thorough tier only; the encoding/json reference oracle sees them always
+						if str, ok := in.(string); ok && len(str) > 4000 {
+							if name != "fromjson" {
+								continue
+							}
+							r.quiet = !thorough
+						}
+						r.call(n, in, nil)
+						r.quiet = false
+					}
 				}
 			case 1:
 				ins, as := core, core
@@ -956,6 +1080,7 @@ func runC03(c *Ctx) {
 	c.Stats["compiled_path_differs"] = r.pathDif
 	c.Stats["inputs_modified"] = r.mutated
 	c.Stats["natives"] = len(names)
+	c.Stats["fromjson_reference_differs"] = r.refDiff
 }
 
 // builtin.go in sync with builtin.jq: parse the published source with the public parser and compare
